@@ -65,7 +65,7 @@ var kindNames = map[okind]string{
 	kBig: "bigint", kU64: "uint64", kI64: "int64", kInt: "int", kVecU: "vec-uint64", kVecI: "vec-int64", kNone: "none",
 }
 
-func (k okind) String() string { return kindNames[k] }
+func (k okind) String() string  { return kindNames[k] }
 func (k okind) isCt() bool      { return k <= kCtDeg2 }
 func (k okind) isPt() bool      { return k >= kPtEq && k <= kPtLow }
 func (k okind) isElement() bool { return k <= kPtLow }
